@@ -21,7 +21,7 @@ ASSUMPTIONS = [
 REQUIRED_COUNTERS = ["ops", "gap_fills", "foreign_refusals", "duplicate_attaches", "invariant_evaluations", "note_mod_checks", "save_loads"]
 
 
-def plan(tier, seed):
+def _plan_core(tier, seed):
     n = 4 if tier == "quick" else 16
     per = 2500 if tier == "quick" else 10000
     return [{"tier": tier, "seed": env.shard_seed(i), "shard": i, "n_shards": n, "sequences": per} for i in range(n)]
@@ -343,6 +343,11 @@ def start_state(world, mask, loaded):
 
 
 def run_shard(spec_, res):
+    if spec_.get("part") == "soak":
+        from .. import soak
+        for s_ in spec_["soak_seeds"]:
+            soak.run(res, s_, spec_["tier"], PROPERTY, SOAK_KINDS, spec_["steps"])
+        return
     rng = random.Random(spec_["seed"])
     monitors.install()
     masks = [m for k in range(0, 6) for m in itertools.product((False, True), repeat=k)]
@@ -381,3 +386,16 @@ def finalize(merged, tier):
 
 def replay(case, res):
     res.inconclusive.append("C14 replays by re-running the shard with the recorded seed (history is in the replay file)")
+
+
+# ------------------------------------------------------------------ soak slice (rvmon.soak): long mixed histories on a pool of objects
+SOAK_KINDS = ['structure']
+
+
+def plan(tier, seed):
+    specs = _plan_core(tier, seed)
+    k = 2 if tier == "quick" else 8
+    for i in range(k):
+        specs.append({"tier": tier, "part": "soak", "soak_seeds": [seed * 100003 + 1000 * i + j for j in range(8 if tier == "quick" else 40)],
+                      "steps": 150 if tier == "quick" else 300, "seed": seed, "shard": 1000 + i})
+    return specs
